@@ -27,7 +27,8 @@ RULE = (
     'float64/float32/int64/datetime64 with irregular ascending steps on a dyadic grid; data '
     'float64/float32/int64 = levels + grid noise + ramps/zigzags; atol equal to an occurring '
     'slope exactly, +-1 ulp, between, 0, huge, in the derivative unit or a scaled unit; '
-    'min_n_points 1..n as int / numpy int / unit-less Variable), followed by collapse_plateaus '
+    'min_n_points 1..n as int / numpy int / unit-less Variable; int64 coordinates up to both ends of the '
+    'int64 range), followed by collapse_plateaus '
     'on what was returned and filter_in_phase on the collapsed values, plus direct '
     'filter_in_phase calls (frequencies 0, tiny, n*ref, ref/n perturbed by {0,0.1,0.49,2,10} x '
     'rtol, either sign of f and ref, float64/float32/int64) and direct collapse_plateaus calls '
@@ -161,9 +162,11 @@ def judge_find(ctx, args, res, exc, diag, origin):
         if not (_finite(y) and _finite(x) and np.isfinite(float(atol.value))) or not _sorted_ascending(x):
             ctx.count('find.out_of_domain:non_finite_or_unsorted')
             return
-        if yk == 'int64' and np.max(np.abs(y)) >= 2**52 or \
-                xk in ('int64', 'datetime64') and np.max(np.abs(M.as_number_array(x))) >= 2**62:
-            ctx.count('find.out_of_domain:integer_magnitude')
+        # integer differences are formed in int64 (as documented: y[i+1]-y[i], x[i+1]-x[i]); they must not wrap
+        if yk == 'int64' and int(np.max(y)) - int(np.min(y)) >= 2**53 or \
+                xk in ('int64', 'datetime64') and \
+                int(M.as_number_array(x)[-1]) - int(M.as_number_array(x)[0]) >= 2**53:
+            ctx.count('find.out_of_domain:integer_span')
             return
         xn = M.as_number_array(x)
         dx0 = xn[1:] == xn[:-1]
@@ -695,10 +698,12 @@ def install_monitors(tr: Tracer, ctx, origin=None):
                 diag.clear()
         return on_return
 
-    tr.watch(F._derive, '_derive', on_return=helper('derive'))
-    tr.watch(F._check_total_tolerance, '_check_total_tolerance', on_return=helper('guard'))
-    tr.watch(F._next_highest, '_next_highest', on_return=helper('next_highest'))
-    tr.watch(F._is_approximate_multiple, '_is_approximate_multiple', on_return=helper('mask'))
+    # helpers: diagnosis only (their absence after a refactoring is not a reason for any verdict)
+    for fname, attr in (('_derive', 'derive'), ('_check_total_tolerance', 'guard'),
+                        ('_next_highest', 'next_highest'), ('_is_approximate_multiple', 'mask')):
+        fn = getattr(F, fname, None)
+        if fn is not None:
+            tr.watch(fn, fname, on_return=helper(attr))
     tr.watch(F.find_plateaus, 'find_plateaus', on_start=snapshot('data'), on_return=public(judge_find, 'data'))
     tr.watch(F.collapse_plateaus, 'collapse_plateaus', on_start=snapshot('plateaus'),
              on_return=public(judge_collapse, 'plateaus'))
@@ -798,8 +803,11 @@ def gen_series(rng):
     elif xk == 'int64':
         h = int(_pick(rng, [1, 1, 2, 10, 1000]))
         x0 = int(rng.integers(-10**6, 10**6))
-        if rng.random() < 0.05:
-            x0 = 2**61 - int(jx[-1]) * h - 1 - int(rng.integers(0, 5))
+        r = rng.random()
+        if r < 0.06:      # the upper end of the int64 range (the last point may be INT64_MAX itself)
+            x0 = int(np.iinfo(np.int64).max) - int(jx[-1]) * h - int(_pick(rng, [0, 1, 1, 2, 5]))
+        elif r < 0.09:    # the lower end
+            x0 = int(np.iinfo(np.int64).min) + int(_pick(rng, [0, 1, 3]))
         xv = x0 + jx * h
         cu = _pick(rng, COORD_UNITS)
         xvar = sc.array(dims=[dim], values=xv, unit=cu, dtype='int64')
@@ -1058,9 +1066,7 @@ def requirements(tier):
     k = 1 if tier == 'quick' else 40
     return {
         'events': {'find_plateaus': 1200 * k, 'collapse_plateaus': 1200 * k, 'filter_in_phase': 1200 * k},
-        'counters': {'filter.elements_decided': 10000 * k, 'find.allowed_RuntimeError': 1,
-                     'helper._derive': 1000 * k, 'helper._check_total_tolerance': 1000 * k,
-                     'helper._next_highest': 1000 * k, 'helper._is_approximate_multiple': 1000 * k},
+        'counters': {'filter.elements_decided': 10000 * k},
         'forced': [
             'slope == atol exactly', 'slope == atol + 1 ulp', 'slope == atol - 1 ulp',
             'atol in a scaled unit', 'min_n_points = 1', 'min_n_points = n', 'min_n_points as Variable',
